@@ -52,7 +52,7 @@ def _bad_key_sources(prog, f, argno, depth):
 def key_rule(prog, rep):
     rep.rule("C04.K", "every key of a map keyed by SyntaxNodeID derives from SyntaxNodeRef.index or `Node::id() as SyntaxNodeID`")
     n = 0
-    for f in sorted(prog.fns.values(), key=lambda x: x.id):
+    for f in sorted(prog.shape_fns(), key=lambda x: x.id):
         if f.body is None or f.crate.prefix != "tsg":
             continue
         body = f.body
@@ -96,7 +96,7 @@ def key_rule(prog, rep):
                 rep.violation("C04.K", k, sp_str(t["sp"]), "syntax-node key is not SyntaxNodeRef.index / Node::id() as u32: %s" % kc[:160])
     # the one cast: Node::id() as u32 (same width everywhere)
     casts = set()
-    for f in prog.fns.values():
+    for f in prog.shape_fns():
         if f.body is None or f.crate.prefix != "tsg":
             continue
         tr = None
@@ -385,7 +385,7 @@ def run(prog, rep):
         rep.check(not extra, "C04.D", "%s :: duplicate is unconditional" % f.id, f.loc(), "no further condition decides whether a second definition is reported",
                   "a second definition on the same node is reported only under an extra condition (%s): otherwise the later value silently wins" % "; ".join(extra[:2]))
     for fid, variant in (("strict::<impl tsg::ast::ScopedVariable>::get", "UndefinedVariable"), ("LazyScopedVariables::evaluate", "UndefinedScopedVariable")):
-        fl = [f for f in prog.fns.values() if f.id.endswith(fid)]
+        fl = [f for f in prog.shape_fns() if f.id.endswith(fid)]
         ok = False
         for f in fl:
             for g in [f] + prog.all_closures_under(f):
@@ -407,7 +407,7 @@ def run(prog, rep):
     C02.lazy_phases(prog, rep)
     # E2.d over the scoped-variable code
     rep.rule("E2.d", "no failure of the scoped-variable code paths is dropped")
-    fns = [f for f in prog.fns.values() if f.crate.prefix == "tsg" and (
+    fns = [f for f in prog.shape_fns() if f.crate.prefix == "tsg" and (
         (f.self_path in ("tsg::ast::ScopedVariable", "tsg::execution::lazy::store::LazyScopedVariables", "tsg::execution::strict::ScopedVariables",
                          "tsg::execution::lazy::values::LazyScopedVariable")) or
         (f.parent and any(x in f.parent for x in ("ScopedVariable", "LazyScopedVariables"))) or f.file == "src/variables.rs")]
